@@ -1,5 +1,7 @@
 import TexcraftModel.Util.Proto
 import TexcraftModel.Model.C08
+import TexcraftModel.Model.C08Macros
+import TexcraftModel.Model.C08Input
 
 /-! Driver for C08. Requests:
 
@@ -9,8 +11,14 @@ import TexcraftModel.Model.C08
   `5 0 kind idx` / `5 1 tk tn` / `5 2 0 0`), plus `dk = 10`: `\let`=primitive `a` of
   `C08.stdTable`, and `9` = the checkpoint.
   Reply: `N | F | P`: the outputs of all ops (`pre ++ post`) without a checkpoint, with the
-  checkpoint of the repaired code, with the checkpoint of the code before C08-a
+  checkpoint of the code as it is — serialiser transcribed with its incremental macro table,
+  `C08.runCheckpointedInc id` —, with the checkpoint of the code before C08-a
   (`PANIC` if the checkpoint itself panics in the model). Output words as in `Driver/C01.lean`.
+* `share <v> <ops>` — the serialised macro table as coded (`serializeInc id`) at the checkpoint:
+  `ok <tk>.<tn>.<u> …` for every candidate name that is written as `Macro(u)` (`none`: the program
+  stopped before the checkpoint; `PANIC`: the serialiser panics).
+* `instack n e1 l1 … en ln` — `C08.Input.Stack.next` on a stack of `n` sources (current first) with
+  `e` pending expansions and `l` undelivered characters each: `token` / `invalid` / `endOfInput`.
 * `same <words> | <words>` — the specification's verdict on two canonical observations (what
   the uninterrupted VM did, what the checkpointed VM did): `1` iff identical.
 * `sound` — `NameTableSound` evaluated on the finite part of `stdTable` the driver uses. -/
@@ -128,9 +136,51 @@ def handle (line : String) : String :=
       | none => "bad"
       | some (pre, post) =>
         let n := showOuts (run cfg VMState.init (pre ++ post)).2
-        let f := showCk (runCheckpointed cfg true stdTable pre post)
+        let f := showCk (runCheckpointedInc id cfg stdTable pre post)
         let p := showCk (runCheckpointed cfg false stdTable pre post)
         " | ".intercalate [n, f, p]
+  | "share" :: ws =>
+    match ints? ws with
+    | some (v :: c) =>
+      if v < 0 ∨ 7 < v then "bad" else
+      let cfg : Variant := ⟨v.toNat % 2 = 1, (v.toNat / 2) % 2 = 1, (v.toNat / 4) % 2 = 1⟩
+      match decOps (c.length + 1) false c with
+      | none => "bad"
+      | some (pre, _) =>
+        let r := run cfg VMState.init pre
+        if r.2.any Out.fatal then "none" else
+        match serializeInc id stdTable r.1 with
+        | .ok s =>
+          let cands : List (Nat × CTarget) :=
+            ((List.range 6).map fun n => (0, CTarget.cs n)) ++
+            ((List.range 60).map fun n => (0, CTarget.cs (100 + n))) ++
+            ((List.range 4).map fun n => (1, CTarget.act n))
+          let ws := cands.filterMap fun (tk, t) =>
+            match s.get t, t with
+            | some (.macro u), .cs n => some s!"{tk}.{n}.{u}"
+            | some (.macro u), .act n => some s!"{tk}.{n}.{u}"
+            | _, _ => none
+          "ok " ++ " ".intercalate ws
+        | _ => "PANIC"
+    | _ => "bad"
+  | "instack" :: ws =>
+    -- `instack n e1 l1 … en ln`: a stack of n sources (current first), each with `e` pending
+    -- expansions and `l` undelivered characters; reply: what `next_unexpanded` answers
+    match nats? ws with
+    | some (n :: rest) =>
+      let rec build : Nat → List Nat → Option (List C08.Input.Src)
+        | 0, [] => some []
+        | k + 1, e :: l :: t =>
+          (build k t).map fun r => { expansions := List.replicate e 0, lexer := List.replicate l (some 0) } :: r
+        | _, _ => none
+      match build n rest with
+      | some (cur :: srcs) =>
+        match (C08.Input.Stack.next { cur := cur, sources := srcs }).1 with
+        | .token _ => "token"
+        | .invalid => "invalid"
+        | .endOfInput => "endOfInput"
+      | _ => "bad"
+    | _ => "bad"
   | "same" :: ws =>
     let a := ws.takeWhile (· ≠ "|")
     let b := (ws.dropWhile (· ≠ "|")).drop 1
